@@ -66,7 +66,7 @@ func roundConst(r *big.Rat) *big.Rat {
 
 // fround models one IEEE-754 double rounding (round to nearest) of the exact real value.
 func (x *Exec) fround(exact *Term, st *State, at ast.Node) *Term {
-	if x.specMode > 0 {
+	if x.inSpec() {
 		return exact
 	}
 	if exact.isConst() {
@@ -152,7 +152,7 @@ func intValued(t *Term) (*Term, bool) {
 }
 
 func (x *Exec) fdiv(a, b *Term, st *State, at ast.Node) *Term {
-	if x.specMode > 0 {
+	if x.inSpec() {
 		return mkRDiv(a, b)
 	}
 	if !b.isConst() {
@@ -247,7 +247,7 @@ func (x *Exec) evalConversion(call *ast.CallExpr, to types.Type, st *State) Valu
 				return a
 			case FloatV:
 				t := truncReal(a.T)
-				if x.specMode == 0 && !t.isConst() {
+				if !x.inSpec() && !t.isConst() {
 					lo, hi := intRange(u)
 					x.oblige("overflow", st, mkAnd(mkLe(mkBig(lo), t), mkLe(t, mkBig(hi))), call, "float to int conversion in range")
 				}
@@ -256,7 +256,7 @@ func (x *Exec) evalConversion(call *ast.CallExpr, to types.Type, st *State) Valu
 		case u.Info()&types.IsFloat != 0:
 			switch a := v.(type) {
 			case IntV:
-				if x.specMode == 0 && !a.T.isConst() {
+				if !x.inSpec() && !a.T.isConst() {
 					lim := mkBig(new(big.Int).Lsh(big.NewInt(1), 53))
 					x.oblige("fexact", st, mkAnd(mkLt(mkNeg(lim), a.T), mkLt(a.T, lim)), call, "int to float conversion is exact")
 				}
@@ -721,7 +721,7 @@ var _ = fmt.Sprint
 
 // sterbenz: for doubles a, b with b/2 <= a <= 2b the difference a-b is exact.
 func (x *Exec) sterbenz(a, b, r *Term, st *State) {
-	if x.specMode > 0 || r.Op != "var" {
+	if x.inSpec() || r.Op != "var" {
 		return
 	}
 	two := mkRat(big.NewRat(2, 1))
